@@ -405,8 +405,32 @@ class PaneOptions:
         return dataclasses.replace(self, **{k: v for (k, v) in changes.items() if v is not None})
 
 
-@functools.lru_cache(maxsize=256)
+def _param_key(param: t.Any) -> t.Any:
+    """
+    Key identifying a type parameter. Unlike equality of `typing` objects, this
+    distinguishes ``Union[int, float]`` from ``Union[float, int]`` (unions are tried left to right).
+    """
+    args = t.get_args(param)
+    if len(args):
+        return (t.get_origin(param), getattr(param, '__metadata__', None), tuple(map(_param_key, args)))
+    return param
+
+
+_SUBCLASSES: t.Dict[t.Any, type] = {}
+"""Parametrized subclasses made so far. Entries are kept: ``Cls[int]`` is one class, whenever it is asked for."""
+
+
 def _make_subclass(cls: t.Any, params: t.Tuple[t.Any, ...]) -> type:
+    key = (cls, tuple(map(_param_key, params)))
+    try:
+        return _SUBCLASSES[key]
+    except KeyError:
+        pass
+    # (setdefault: should two threads make the same subclass at once, all of them get the one stored first)
+    return _SUBCLASSES.setdefault(key, _make_subclass_inner(cls, params))
+
+
+def _make_subclass_inner(cls: t.Any, params: t.Tuple[t.Any, ...]) -> type:
     sup: t.Any = super(PaneBase, cls)
     if not hasattr(sup, '__class_getitem__'):
         raise TypeError(f"type '{cls}' is not subscriptable")
